@@ -16,7 +16,7 @@ from ..pat import find_expr, find_stmt, match_expr, match_stmt
 from ..pm import src
 from ..q import FA, call_name, compare_parts, const, guard_facts, is_neg_inf, is_self_attr, mode_under, walk_no_nested
 
-TECHNIQUE = "R-SIB: canonical-form comparison of the three shrinkage implementations, the final live-count schedules and the boundary constructions against the documented formulas; R-DEG: shift-degree type checking (abstract interpretation) of every expression in the integrator and weight functions; order-insensitive linear forms for the quadrature rules"
+TECHNIQUE = "R-SIB: canonical-form comparison of the three shrinkage implementations, the final live-count schedules and the boundary constructions against the documented formulas; R-DEG: shift-degree type checking (abstract interpretation) of every expression in the integrator and weight functions; order-insensitive linear forms for the quadrature rules; R-ALIAS (fresh-object analysis of property getters paired with in-place consumers)"
 
 ST = "nessai.evidence:_NSIntegralState"
 EXPECTED = {"logt": "-(1 / n)", "t": "-log1p(1 / n)"}
@@ -211,7 +211,8 @@ def run(ctx):
     # computes them anew on every call and keeps nothing
     from ..rules import alias as _alias
     _al = _alias.scan(prog)
-    ctx.require(len(_al) >= 1, "no in-place consumer of a property value found (effective_n_posterior_samples expected)")
+    ctx.require(_alias.self_check(), "R-ALIAS fixtures: the caching getter with an in-place consumer is not reported / the fresh twin is")
+    ctx.ob("R-ALIAS", "C02.7", "nessai", "every in-place consumer of a property value was paired with the getters of that name (fixtures re-decided)", True, f"{len(_al)} consumer(s)")
     for _f, _mod, _attr, _c, _ok, _why in _al:
         ctx.ob("R-ALIAS", "C02.7", _f, f"the value of property `{_attr}` is modified in place only because every getter of that name returns a fresh object", _ok, _why, node=_mod)
     ctx.floor("C02.7", 1)
@@ -242,7 +243,7 @@ def _returned_weight_terms(f, xname):
 
 
 CLAIM = {
-    "text": "Decides (a) that the three implementations of the expected shrinkage (incremental integrator, live-point volumes, one-pass weights) canonicalise, per mode, to the documented -1/n and -log1p(1/n), that the final live-count schedules denote nlive..1 in all three places, that both the incremental and the one-pass code build the same closed trapezoid (L ++ [L[-1]], X ++ [-inf], X0 = 0, L0 = -inf) and the rectangle weights L_i + log(X_{i-1}-X_i) - log Z, and that the trapezoid / logsubexp / rectangle-update expressions equal the documented forms as order-insensitive linear forms over canonical atoms; (b) by shift-degree type checking of every expression (~300) of the integrator and weight functions, that log Z has degree 1, volumes and weights degree 0, every store respects its field's degree, logaddexp/comparisons only combine equal degrees and no exp/log/log1p ever sees a value that moves with a likelihood offset - which is the exact-arithmetic offset clause and the necessary condition for the no-overflow clause.",
+    "text": "Decides (a) that the three implementations of the expected shrinkage (incremental integrator, live-point volumes, one-pass weights) canonicalise, per mode, to the documented -1/n and -log1p(1/n), that the final live-count schedules denote nlive..1 in all three places, that both the incremental and the one-pass code build the same closed trapezoid (L ++ [L[-1]], X ++ [-inf], X0 = 0, L0 = -inf) and the rectangle weights L_i + log(X_{i-1}-X_i) - log Z, and that the trapezoid / logsubexp / rectangle-update expressions equal the documented forms as order-insensitive linear forms over canonical atoms; (b) by shift-degree type checking of every expression (~300) of the integrator and weight functions, that log Z has degree 1, volumes and weights degree 0, every store respects its field's degree, logaddexp/comparisons only combine equal degrees and no exp/log/log1p ever sees a value that moves with a likelihood offset - which is the exact-arithmetic offset clause and the necessary condition for the no-overflow clause. Values handed out by a property are modified in place (effective_n_posterior_samples normalises the weights in place) only because every getter of that name returns a fresh object on all paths (R-ALIAS).",
     "note": "Syntactic algebra and abstract interpretation only: agreement with an arbitrary-precision evaluation to floating-point accuracy, precision at extreme dynamic range and tie/-inf behaviour are not decided. The information estimate is typed TOP (its invariance rests on two coefficients summing to one) and is checked not to flow into the obligations.",
 }
 
